@@ -94,6 +94,8 @@ class Model(object):
             if HDR[t] in kinds:
                 for v in trailer_variants:
                     evs.append((t,) + v)
+        # the closing call in the middle of a history: the writer goes on with the next interchange afterwards
+        evs.append(('CL',))
         return evs
 
     def count_for(self, j):
@@ -113,7 +115,12 @@ class Model(object):
         sseg, sele, ssub, srep = src_delims(self.cfg)
         k = ev[0]
         self.synth = 0
-        if k == 'ISA':
+        if k == 'CL':
+            self.synth = len(self.stack)
+            while self.stack:
+                self.close_top()
+            self.inputs.append(None)           # None = call Close() here
+        elif k == 'ISA':
             assert not self.stack
             self.n_isa += 1
             cid = '%09d' % self.n_isa
@@ -343,7 +350,10 @@ def step(hist):
     n = len(m.inputs)
     for i, s in enumerate(m.inputs):
         try:
-            wr.Write(pyx12.segment.Segment(s, *src_delims(cfg)))
+            if s is None:
+                wr.Close()
+            else:
+                wr.Write(pyx12.segment.Segment(s, *src_delims(cfg)))
         except Exception as e:
             if i < n - 1:
                 raise AssertionError('prefix of an explored history raised %r' % (e,))
